@@ -4,6 +4,7 @@ changes only by nucleation and by loss through the ends of the grid.
 Theorems about KawinV.MB (mass balance), KawinV.PBM (transport) and KawinV.PSD (state → stored PSD).
 -/
 import KawinV.Model.PSDUpdate
+import KawinV.Model.PBMGrid
 import KawinV.Props.C07
 import Mathlib.Tactic.Ring
 import Mathlib.Tactic.Linarith
@@ -258,6 +259,24 @@ theorem density_step_partial (xs : List α) (R : List α) (nf : Nat → α) (kn 
       · exact hx'pos _ (List.getElem_mem _)
   refine ⟨le_trans hp hsum, ?_, trunc_nonneg _⟩
   exact le_trans (trunc_sum_bounds _ hppos).1 (le_trans hp hsum)
+
+/-! ### re-mesh steps: the clause is false of the code (known finding `remesh-changes-number-density`) -/
+
+/-- 9 classes on [1,10], only class 7 = [8,9] populated with 50 particles -/
+def remeshWitness : Grid.State ℚ := { Grid.init (1 : ℚ) 10 9 4 8 with psd := [0, 0, 0, 0, 0, 0, 0, 50, 0] }
+
+/-- **remesh_changes_density**: re-meshing to 7 classes on the same range (what `changeSizeClasses`
+does, also inside `adjustSizeClassesEuler` on an accepted step) keeps the third moment exactly and
+INCREASES the number density from 50 to 421289750/8019679 ≈ 52.5 — with no nucleation at all.
+Kernel-evaluated on the executable grid model of C08 (`decide +kernel`, standard axioms only). -/
+theorem remesh_changes_density :
+    ∃ s', Grid.change remeshWitness 1 10 (some 7) false = some s' ∧
+      Grid.moment remeshWitness.psd remeshWitness.size 3 = 122825/4 ∧
+      Grid.moment s'.psd s'.size 3 = 122825/4 ∧
+      Grid.moment remeshWitness.psd remeshWitness.size 0 = 50 ∧
+      Grid.moment s'.psd s'.size 0 = 421289750/8019679 ∧
+      Grid.moment remeshWitness.psd remeshWitness.size 0 < Grid.moment s'.psd s'.size 0 := by
+  decide +kernel
 
 /-! ### non-vacuity -/
 
